@@ -251,11 +251,12 @@ def main():
         # a function that was under contract on the reference tree and left the verified subset: every obligation of the
         # committed baseline on it "passed on the unchanged tree and now fails" -- reported once, with the engine's reason;
         # a concrete failing input found by the bounded evaluation of the same contract is reported separately above
-        lost = [b for b in bl["clauses"] if b.startswith(u["function"] + "#")]
+        pre = u.get("prefix") or u["function"]   # one case of a case-split contract leaves the subset on its own
+        lost = [b for b in bl["clauses"] if b.startswith(pre + "#")]
         if not lost:
             continue
         os.makedirs(rdir, exist_ok=True)
-        path = os.path.join(rdir, sanitize(u["function"] + "_left_verified_subset") + ".json")
+        path = os.path.join(rdir, sanitize(pre + "_left_verified_subset") + ".json")
         json.dump({"property": pid, "source": "prover", "obligation": lost[0], "function": u["function"],
                    "lost_baseline_obligations": lost, "verifier_output": u.get("reason"), "witness": None},
                   open(path, "w"), indent=1, default=str)
